@@ -223,6 +223,19 @@ class Sem:
         return self._res(e, at, depth, set(), through_caller)
 
     def _res(self, e: ast.AST, at: int, depth: int, busy: Set[Tuple[str, int]], tc: bool) -> ast.AST:
+        if isinstance(e, ast.Call) and depth > 0 and not e.keywords and not any(isinstance(a, ast.Starred) for a in e.args):
+            # application of a lambda (written in place, or kept in a local that is defined once): β-reduction
+            lam = e.func
+            if isinstance(lam, ast.Name) and lam.id not in self.keep_names and lam.id not in self._mutated:
+                try:
+                    ds_ = self.du.reaching(lam.id, at)
+                except Exception:
+                    ds_ = []
+                lam = ds_[0].value if len(ds_) == 1 and ds_[0].kind == "assign" and isinstance(ds_[0].value, ast.Lambda) else None
+            if isinstance(lam, ast.Lambda) and not lam.args.vararg and not lam.args.kwarg and not lam.args.kwonlyargs \
+                    and len(lam.args.args) == len(e.args):
+                sub_ = {a_.arg: self._res(x_, at, depth - 1, busy, tc) for a_, x_ in zip(lam.args.args, e.args)}
+                return self._res(self._subst(lam.body, sub_), at, depth - 1, busy, tc)
         if isinstance(e, ast.Name) and isinstance(e.ctx, ast.Load):
             if depth <= 0 or e.id in self.keep_names:
                 return e
@@ -383,6 +396,17 @@ class Sem:
             self.keep_names = saved
 
     def _res_comp(self, e: ast.AST, at: int, depth: int, busy, tc: bool, bound: Set[str]) -> ast.AST:
+        if isinstance(e, ast.Call) and depth > 0 and not e.keywords and not any(isinstance(a, ast.Starred) for a in e.args):
+            lam = e.func
+            if isinstance(lam, ast.Name) and lam.id not in bound and lam.id not in self.keep_names and lam.id not in self._mutated:
+                try:
+                    ds_ = self.du.reaching(lam.id, at)
+                except Exception:
+                    ds_ = []
+                lam = ds_[0].value if len(ds_) == 1 and ds_[0].kind == "assign" and isinstance(ds_[0].value, ast.Lambda) else None
+            if isinstance(lam, ast.Lambda) and not lam.args.vararg and not lam.args.kwarg and not lam.args.kwonlyargs and len(lam.args.args) == len(e.args):
+                sub_ = {a_.arg: self._res_comp(x_, at, depth - 1, busy, tc, bound) for a_, x_ in zip(lam.args.args, e.args)}
+                return self._res_comp(self._subst(lam.body, sub_), at, depth - 1, busy, tc, bound)
         if isinstance(e, ast.Call) and self.inline_helpers and depth > 0:
             inl = self._inline_in_comp(e, at, depth, busy, tc, bound)
             if inl is not None:
@@ -743,6 +767,31 @@ class _Rename(ast.NodeTransformer):
         return n
 
 
+def _fold_none_guards(body: List[ast.stmt]) -> List[ast.stmt]:
+    """Straight-line constant folding of `if p is None:` / `if p is not None:` when `p` was just bound to a constant (the default of an
+    inlined helper parameter): the guard is replaced by the arm that is taken."""
+    known: Dict[str, ast.Constant] = {}
+    out: List[ast.stmt] = []
+    for st in body:
+        if isinstance(st, ast.If) and isinstance(st.test, ast.Compare) and len(st.test.ops) == 1 and isinstance(st.test.ops[0], (ast.Is, ast.IsNot)) \
+                and isinstance(st.test.left, ast.Name) and st.test.left.id in known and isinstance(st.test.comparators[0], ast.Constant) \
+                and st.test.comparators[0].value is None:
+            is_none = known[st.test.left.id].value is None
+            take = st.body if (is_none == isinstance(st.test.ops[0], ast.Is)) else st.orelse
+            for n in ast.walk(st):
+                if isinstance(n, ast.Name) and isinstance(n.ctx, (ast.Store, ast.Del)):
+                    known.pop(n.id, None)
+            out += _fold_none_guards(list(take))
+            continue
+        stored = {n.id for n in ast.walk(st) if isinstance(n, ast.Name) and isinstance(n.ctx, (ast.Store, ast.Del))}
+        for nm in stored:
+            known.pop(nm, None)
+        if isinstance(st, ast.Assign) and len(st.targets) == 1 and isinstance(st.targets[0], ast.Name) and isinstance(st.value, ast.Constant):
+            known[st.targets[0].id] = st.value
+        out.append(st)
+    return out
+
+
 def inline_private_helpers(idx: Index, fi: FunctionInfo, depth: int = 2, skip: Optional[Set[str]] = None) -> FunctionInfo:
     """A copy of `fi` in which statements `t = self._h(a, b)`, `return _h(a)`, `self._h(a)` calling a private helper of the same
     module/class with a simple body (no early return) are replaced by the helper's statements (locals renamed, parameters bound).
@@ -856,6 +905,7 @@ def inline_private_helpers(idx: Index, fi: FunctionInfo, depth: int = 2, skip: O
             tail = make_tail(retv2 if retv2 is not None else ast.Constant(value=None))
             if tail is not None:
                 new.append(tail)
+        new = _fold_none_guards(new)
         for s in new:
             ast.fix_missing_locations(s)
         return new
